@@ -89,6 +89,13 @@ struct Layout {
     /// and after every compaction pass.
     #[serde(default)]
     redeliver: Vec<(u16, u16)>,
+    /// a leftover of an operation that failed earlier: an object nobody references under the key
+    /// the next segment will get (a flush whose segment put succeeded and whose manifest update
+    /// failed leaves exactly that). 0 none; 1 a complete, valid segment (a copy of the first listed
+    /// one); 2 the first half of it; 3 bytes that are no segment. A compaction that meets it must
+    /// still not change what recovery returns.
+    #[serde(default)]
+    orphan: u8,
 }
 
 type Persistence = StreamingPersistence<TraceObjectStore, SimulatedClock>;
@@ -208,6 +215,23 @@ fn setup(l: &Layout) -> Result<Env, String> {
             last_segment_id: cr.last_segment_id,
         });
         run_now(mm.save(&m)).map_err(|e| format!("setup manifest save: {}", e))?;
+    }
+    if l.orphan > 0 {
+        use redis_sim::streaming::ObjectStore as _;
+        let mm = ManifestManager::new(store.clone(), PREFIX);
+        let m = run_now(mm.load()).map_err(|e| format!("setup manifest load (orphan): {}", e))?;
+        if let Some(first) = m.segments.first() {
+            let src = run_now(store.get(&first.key)).map_err(|e| format!("setup orphan source: {}", e))?;
+            let key = format!("{}/segments/segment-{:08}.seg", PREFIX, m.next_segment_id);
+            if first.key.ends_with(&format!("segment-{:08}.seg", first.id)) && !m.segments.iter().any(|s| s.key == key) {
+                let bytes = match l.orphan {
+                    1 => src,
+                    2 => src[..src.len() / 2].to_vec(),
+                    _ => b"not a segment: left behind by something else".to_vec(),
+                };
+                run_now(store.put(&key, &bytes)).map_err(|e| format!("setup orphan put: {}", e))?;
+            }
+        }
     }
     Ok(Env {
         image: store.image(),
@@ -1382,8 +1406,9 @@ fn layout(min_segments: usize, max_segments: usize, max_deltas: usize) -> impl S
         prop_oneof![Just(250u32), Just(400), Just(700), Just(1 << 20)],
         clock(),
         redeliveries(),
+        prop_oneof![6 => Just(0u8), 1 => Just(1u8), 1 => Just(2u8), 1 => Just(3u8)],
     )
-        .prop_map(|(segments, checkpoint_prefix, min_seg, max_seg, ttl_ms, target, clock, redeliver)| Layout {
+        .prop_map(|(segments, checkpoint_prefix, min_seg, max_seg, ttl_ms, target, clock, redeliver, orphan)| Layout {
             segments,
             checkpoint_prefix,
             min_seg,
@@ -1393,6 +1418,7 @@ fn layout(min_segments: usize, max_segments: usize, max_deltas: usize) -> impl S
             clock,
             err_kind: 0,
             redeliver,
+            orphan,
         })
 }
 
@@ -1430,8 +1456,9 @@ fn layout_many() -> impl Strategy<Value = Layout> {
         prop_oneof![Just(2000u32), Just(1 << 20)],
         clock(),
         redeliveries(),
+        prop_oneof![6 => Just(0u8), 1 => Just(1u8), 1 => Just(2u8), 1 => Just(3u8)],
     )
-        .prop_map(|(segments, checkpoint_prefix, min_seg, max_seg, ttl_ms, target, clock, redeliver)| Layout {
+        .prop_map(|(segments, checkpoint_prefix, min_seg, max_seg, ttl_ms, target, clock, redeliver, orphan)| Layout {
             segments,
             checkpoint_prefix,
             min_seg,
@@ -1441,6 +1468,7 @@ fn layout_many() -> impl Strategy<Value = Layout> {
             clock,
             err_kind: 0,
             redeliver,
+            orphan,
         })
 }
 
@@ -1471,6 +1499,7 @@ fn case_kf01() -> Layout {
         clock: Clock::Simulated(0),
         err_kind: 0,
         redeliver: Vec::new(),
+        orphan: 0,
     }
 }
 
@@ -1490,6 +1519,7 @@ fn resurrection_layout(clock: Clock, ttl_ms: u64) -> Layout {
         clock,
         err_kind: 0,
         redeliver: Vec::new(),
+        orphan: 0,
     }
 }
 
@@ -1508,6 +1538,7 @@ fn case_kf04() -> Inter {
             clock: Clock::Simulated(0),
             err_kind: 0,
             redeliver: Vec::new(),
+            orphan: 0,
         },
         batch: vec![spec(2, Action::Set { val: 3, pad: 0 }, 1, 3)],
         // compactor loads the manifest, the flush runs completely, the compactor finishes
